@@ -75,11 +75,25 @@ func arg(c Case, i int) float32 {
 	return 0
 }
 
-func callHelper(g *generate.Generator, c Case) error {
-	stops := make([]generate.GradientStop, len(c.Stops))
+var stopsModified bool
+
+func callHelper(g *generate.Generator, c Case) (err error) {
+	stops := make([]generate.GradientStop, len(c.Stops), len(c.Stops)+2)
 	for i, s := range c.Stops {
 		stops[i] = generate.GradientStop{Offset: float32(s.Offset), Color: s.color()}
 	}
+	keep := append([]generate.GradientStop{}, stops...)
+	defer func() {
+		// the caller's stop list is an input: it must come back untouched
+		for i := range keep {
+			if stops[i] != keep[i] {
+				stopsModified = true
+			}
+		}
+		if len(stops) != len(keep) {
+			stopsModified = true
+		}
+	}()
 	sp := generate.GradientSpread(c.Spread)
 	switch c.Kind {
 	case "linear":
@@ -159,7 +173,11 @@ func checkHelper(c Case) error {
 	if cs0 != c.PriorCSel&63 || ns0 != c.PriorNSel&63 {
 		return harness.Violatef("c19/prior-selectors", "%s destination reports CSEL=%d NSEL=%d after the prior writes, the machine holds %d/%d", c.Dest, cs0, ns0, c.PriorCSel&63, c.PriorNSel&63)
 	}
+	stopsModified = false
 	err := callHelper(&g, c)
+	if stopsModified {
+		return harness.Violatef("c19/stops-modified", "the helper modified the caller's stop list")
+	}
 	calls := hook.Ops[before:]
 	cs1, ns1 := g.CSel()&63, g.NSel()&63
 
